@@ -703,3 +703,21 @@ def gen_err(rng, tier):
                 for pos in poss:
                     out.append("err %d %d %d %d" % (kind, L, fault, pos))
     return out
+
+
+# thr kind L nthreads rounds seed
+def gen_thr(rng, tier):
+    out = []
+    if tier == "thorough":
+        for kind in (0, 1):
+            for L in (0, 3):
+                for nt in range(2, 17):
+                    for k in range(8):
+                        out.append("thr %d %d %d %d %d" % (kind, L, nt, rng.randrange(2, 7), rng.randrange(1, 10**6)))
+    else:
+        for kind in (0, 1):
+            for L in (0, 3):
+                for nt in (2, 3, 5, 8, 16):
+                    for k in range(2):
+                        out.append("thr %d %d %d %d %d" % (kind, L, nt, rng.randrange(2, 5), rng.randrange(1, 10**6)))
+    return out
